@@ -31,6 +31,7 @@ var reCallN = regexp.MustCompile(`call\d+\(`)
 var rePanicN = regexp.MustCompile(`panic\d+\(`)
 var reBlk = regexp.MustCompile(`\.?return@b\d+`)
 var reAssertAt = regexp.MustCompile(`\.at_call\d+\(`)
+var reDup = regexp.MustCompile(`~\d+$`)
 
 // claimKey strips the parts of an obligation name that depend on instruction numbering.
 func claimKey(name string) string {
@@ -38,6 +39,7 @@ func claimKey(name string) string {
 	s = rePanicN.ReplaceAllString(s, "panic(")
 	s = reBlk.ReplaceAllString(s, "")
 	s = reAssertAt.ReplaceAllString(s, ".at_call(")
+	s = reDup.ReplaceAllString(s, "")
 	return s
 }
 
@@ -194,7 +196,7 @@ func cmdCheck(args []string) int {
 	var retry []*Obligation
 	var retryIdx []int
 	for i, r := range results {
-		if r.Res.Status == "unknown" && !strings.HasPrefix(r.Obl.Name, "canary:") {
+		if r.Res.Status == "unknown" {
 			retry = append(retry, r.Obl)
 			retryIdx = append(retryIdx, i)
 		}
